@@ -1,6 +1,7 @@
 -- FAMILIES: tip5=TF.Drv.Tip5.tip5
 import TF.Drv.Proto
 import TF.Model.Tip5
+import TF.Gen.Tip5Loops
 import TF.Spec.Tip5
 /-!
 driver handler for the family `tip5` (C02).  Field elements travel as canonical values; the model works on raw
@@ -28,29 +29,60 @@ def withSpec (model spec : String) : String :=
 
 def allCanon (l : List Nat) : Bool := l.all (· < P)
 
+def fmtRawL (l : List Nat) : String :=
+  "[" ++ ",".intercalate (l.map fun w => if w < P then toString (bfe_value w) else s!"nc{w}") ++ "]"
+
+/-- the `_ok` flags repeat the whole computation; they are evaluated on a deterministic eighth of the inputs (chosen by
+    the sum of the raw words), the regenerated values on every input -/
+def sampled (l : List Nat) (ok : List Nat → Bool) : Bool :=
+  if (l.foldl (· + ·) 0) % 8 == 0 then ok l else true
+
+/-- the hand model's reply next to the reply computed by the definitions **regenerated from source**
+    (`TF.Gen.Loops.tip5_*`, written by tools/rs2lean_bfe.py): when they differ, or when the regenerated `_ok` flag says that
+    a plain arithmetic operation overflowed / an index was out of range, that is printed instead of the value, so a
+    translator bug (or a hand model that drifted from the code) shows up as a disagreement with the implementation -/
+def both (genOk : Bool) (gen model : String) : String :=
+  if !genOk then "GEN-NOT-OK gen=" ++ gen ++ " model=" ++ model
+  else if gen == model then model else "GEN-MISMATCH gen=" ++ gen ++ " model=" ++ model
+
 def tip5 : Handler
   | "perm", [xs] => do
       let l ← xs.natList?
       if !allCanon l then none
       let v ← toVec 16 l
-      pure (withSpec (fmtRaw (Tip5.permutation (rawV v))) (fmtVals (Spec.Tip5.permutation v)))
+      let raw := rawV v
+      let m := both (sampled raw.toList Loops.tip5_permutation_ok) (fmtRawL (Loops.tip5_permutation raw.toList))
+        (fmtRaw (Tip5.permutation raw))
+      pure (withSpec m (fmtVals (Spec.Tip5.permutation v)))
   | "trace", [xs] => do
       let l ← xs.natList?
       if !allCanon l then none
       let v ← toVec 16 l
-      let m := "[" ++ ",".intercalate ((Tip5.trace (rawV v)).map fmtRaw) ++ "]"
+      let raw := rawV v
+      let g := Loops.tip5_trace raw.toList
+      let m := both (sampled raw.toList Loops.tip5_trace_ok)
+        ("[" ++ ",".intercalate (g.1.map fmtRawL) ++ "]" ++ (if g.2 == (g.1.getLast?.getD []) then "" else "!self=" ++ fmtRawL g.2))
+        ("[" ++ ",".intercalate ((Tip5.trace raw).map fmtRaw) ++ "]")
       let s := "[" ++ ",".intercalate ((Spec.Tip5.trace v).map fmtVals) ++ "]"
       pure (withSpec m s)
   | "hash10", [xs] => do
       let l ← xs.natList?
       if !allCanon l then none
       let v ← toVec 10 l
-      pure (withSpec (fmtRaw (Tip5.hash_10 (rawV v))) (fmtVals (Spec.Tip5.hash10 v)))
+      let inp := (rawV v).toList
+      let g := match Loops.tip5_hash_10 inp with
+        | some d => fmtRawL d
+        | none => "diverge"
+      let m := both (sampled inp Loops.tip5_hash_10_ok) g (fmtRaw (Tip5.hash_10 (rawV v)))
+      pure (withSpec m (fmtVals (Spec.Tip5.hash10 v)))
   | "hashpair", [a, b] => do
       let la ← a.natList?; let lb ← b.natList?
       if !allCanon la || !allCanon lb then none
       let va ← toVec 5 la; let vb ← toVec 5 lb
-      pure (withSpec (fmtRaw (Tip5.hash_pair (rawV va) (rawV vb))) (fmtVals (Spec.Tip5.hashPair va vb)))
+      let st := (Tip5.fixedLengthState (rawV (va ++ vb))).toList
+      let m := both (sampled st Loops.tip5_permutation_ok) (fmtRawL ((Loops.tip5_permutation st).take 5))
+        (fmtRaw (Tip5.hash_pair (rawV va) (rawV vb)))
+      pure (withSpec m (fmtVals (Spec.Tip5.hashPair va vb)))
   | "digesthash", [a] => do
       let la ← a.natList?
       if !allCanon la then none
@@ -84,8 +116,11 @@ def tip5 : Handler
   | "fermat", [.nat b] => some s!"ok:{offset_fermat_cube_map b}"
   | "lut", [.nat b] => if h : b < 256 then some s!"ok:{Tip5.lookup ⟨b, h⟩}" else none
   | "newstate", [.sym "fixed"] =>
-      some ("ok:" ++ fmtRaw (Tip5.fixedLengthState (Vector.replicate 10 Tip5.zero)))
-  | "newstate", [.sym "varlen"] => some ("ok:" ++ fmtRaw Tip5.varlenState)
+      some ("ok:" ++ both (Loops.tip5_new_ok 1) (match Loops.tip5_new 1 with | some l => fmtRawL l | none => "diverge")
+        (fmtRaw (Tip5.fixedLengthState (Vector.replicate 10 Tip5.zero))))
+  | "newstate", [.sym "varlen"] =>
+      some ("ok:" ++ both (Loops.tip5_new_ok 0) (match Loops.tip5_new 0 with | some l => fmtRawL l | none => "diverge")
+        (fmtRaw Tip5.varlenState))
   | "const", [.sym "lookup_table"] => some ("ok:" ++ fmtList LOOKUP_TABLE)
   | "const", [.sym "round_constants"] => some ("ok:" ++ fmtList ROUND_CONSTANTS)
   | "const", [.sym "mds_first_column"] => some ("ok:" ++ fmtList MDS_MATRIX_FIRST_COLUMN)
